@@ -61,7 +61,7 @@ def unit(job, variant, pi, seed, length, per_key, only=None):
     return out
 
 
-EXCEPTIONS = {("AdeleStormComponent", "use")}   # Props/C08_EffectsBase.lean `pathCorrelated`
+EXCEPTIONS: set = set()   # Props/C08_EffectsBase.lean `pathCorrelated` (empty: every method is covered)
 
 
 def merge_observed(into: dict, new: dict):
